@@ -26,7 +26,7 @@ Definition truthy (v : value) : bool :=
   | VStr s => match s with [] => false | _ => true end
   | VList l | VTuple l => match l with [] => false | _ => true end
   | VMissing => false          (* NoneObject.__len__ returns 0 *)
-  | VRec | VTypeRoot | VTypeM _ | VFunc _ | VFt _ => true
+  | VRec | VTypeRoot | VTypeM _ _ | VSub _ _ | VFunc _ | VFt _ => true
   end.
 
 Definition numeric (v : value) : option Z :=
@@ -102,10 +102,98 @@ Fixpoint field_value (fs : list (string * string * value)) (n : string) : option
   | (k, _, v) :: t => if String.eqb k n then Some v else field_value t n
   end.
 
-(* TypeMatcherInstance._values: the values of the fields of type t (missing values skipped) *)
-Definition tm_values (R : record) (t : string) : list value :=
-  flat_map (fun f => match f with (_, ty, v) => if String.eqb ty t && negb (is_missing v) then [v] else [] end)
-           (rec_fields R).
+Definition starts_underscore (a : string) : bool :=
+  match a with String "_" _ => true | _ => false end.
+
+(* getattr(v, a, NONE_OBJECT) for a field value v and a public attribute name a: ints have real / imag /
+   numerator / denominator, nested records have their fields, None has no public attribute; everything else
+   (methods of str / list, properties of uri ...) is outside the model *)
+Definition int_attr (z : Z) (a : string) : option value :=
+  if String.eqb a "real" || String.eqb a "numerator" then Some (VInt z)
+  else if String.eqb a "imag" then Some (VInt 0)
+  else if String.eqb a "denominator" then Some (VInt 1)
+  else None.
+Definition value_getattr (v : value) (a : string) : result :=
+  match v with
+  | VInt z => match int_attr z a with Some w => Val w | None => Exc EUnmodelled end
+  | VSub _ fs => match field_value fs a with
+                 | Some w => Val w
+                 | None => if starts_underscore a then Exc EUnmodelled else Val VMissing
+                 end
+  | VNone | VMissing => if starts_underscore a then Exc EUnmodelled else Val VMissing
+  | _ => Exc EUnmodelled
+  end.
+Fixpoint attr_path (v : value) (attrs : list string) : result :=
+  match attrs with
+  | [] => Val v
+  | a :: t => match value_getattr v a with Val w => attr_path w t | e => e end
+  end.
+
+Definition app_res (a b : list value + exc) : list value + exc :=
+  match a, b with
+  | inl x, inl y => inl (x ++ y)
+  | inr e, _ => inr e
+  | _, inr e => inr e
+  end.
+
+(* TypeMatcherInstance._values: for every field of type t that is there, follow the attribute path; values that
+   end in the sentinel are skipped *)
+Fixpoint tm_own (fs : list (string * string * value)) (t : string) (attrs : list string) : list value + exc :=
+  match fs with
+  | [] => inl []
+  | (_, ty, v) :: rest =>
+      if String.eqb ty t && negb (is_missing v)
+      then match attr_path v attrs with
+           | Val VMissing => tm_own rest t attrs
+           | Val w => app_res (inl [w]) (tm_own rest t attrs)
+           | Exc e => inr e
+           end
+      else tm_own rest t attrs
+  end.
+
+(* TypeMatcherInstance._op: its own values, then -- depth first -- those of the records held by `record` fields,
+   then those held by `record[]` fields.  [keep]: the recursion hands the attribute path on (GENERATED fact). *)
+Fixpoint tm_all_v (keep : bool) (t : string) (attrs : list string) (v : value) {struct v} : list value + exc :=
+  match v with
+  | VSub _ fs =>
+      let sub_attrs := if keep then attrs else [] in
+      let singles :=
+        (fix go (l : list (string * string * value)) : list value + exc :=
+           match l with
+           | [] => inl []
+           | (_, ty, w) :: rest =>
+               if String.eqb ty "record"
+               then match w with
+                    | VSub _ _ => app_res (tm_all_v keep t sub_attrs w) (go rest)
+                    | _ => go rest
+                    end
+               else go rest
+           end) fs in
+      let lists :=
+        (fix go (l : list (string * string * value)) : list value + exc :=
+           match l with
+           | [] => inl []
+           | (_, ty, w) :: rest =>
+               if String.eqb ty "record[]"
+               then match w with
+                    | VList es =>
+                        app_res ((fix each (es : list value) : list value + exc :=
+                                    match es with
+                                    | [] => inl []
+                                    | e :: es' => match e with
+                                                  | VSub _ _ => app_res (tm_all_v keep t sub_attrs e) (each es')
+                                                  | _ => each es'
+                                                  end
+                                    end) es) (go rest)
+                    | _ => go rest
+                    end
+               else go rest
+           end) fs in
+      app_res (tm_own fs t attrs) (app_res singles lists)
+  | _ => inl []
+  end.
+Definition tm_all (keep : bool) (R : record) (t : string) (attrs : list string) : list value + exc :=
+  tm_all_v keep t attrs (VSub (rec_name R) (rec_fields R)).
 Fixpoint string_to_str (s : string) : str :=
   match s with EmptyString => [] | String c t => N_of_ascii c :: string_to_str t end.
 (* TypeMatcherInstance.__iter__: the NAMES of the fields of type t *)
@@ -138,12 +226,15 @@ Definition rich_m (op : rop) (v b : value) : result :=
   end.
 
 (* a <op> b as Python evaluates it (one of the six rich comparisons) *)
-Definition compare (R : record) (op : rop) (a b : value) : result :=
+Definition exists_on (p : value -> result) (l : list value + exc) : result :=
+  match l with inl vs => exists_res p vs | inr e => Exc e end.
+
+Definition compare (keep : bool) (R : record) (op : rop) (a b : value) : result :=
   match a, b with
   | VMissing, _ => sent_const op
-  | VTypeM _, VTypeM _ => Exc EUnmodelled
-  | VTypeM t, _ => exists_res (fun v => rich_m op v b) (tm_values R t)
-  | _, VTypeM t => if plain a then exists_res (fun v => rich_m (rswap op) v a) (tm_values R t) else Exc EUnmodelled
+  | VTypeM _ _, VTypeM _ _ => Exc EUnmodelled
+  | VTypeM t at_, _ => exists_on (fun v => rich_m op v b) (tm_all keep R t at_)
+  | _, VTypeM t at_ => if plain a then exists_on (fun v => rich_m (rswap op) v a) (tm_all keep R t at_) else Exc EUnmodelled
   | _, VMissing => if plain a then sent_const (rswap op) else Exc EUnmodelled
   | _, _ => rich op a b
   end.
@@ -180,10 +271,10 @@ Definition contains_plain (c item : value) : result :=
   | _ => Exc EUnmodelled
   end.
 
-Definition contains (R : record) (c item : value) : result :=
+Definition contains (keep : bool) (R : record) (c item : value) : result :=
   match c with
   | VMissing => match Cmp.s_contains none_object with Some b => vb b | None => Exc EUnmodelled end
-  | VTypeM t => if plain item then exists_res (fun v => contains_plain v item) (tm_values R t) else Exc EUnmodelled
+  | VTypeM t at_ => if plain item then exists_on (fun v => contains_plain v item) (tm_all keep R t at_) else Exc EUnmodelled
   | _ => contains_plain c item
   end.
 
@@ -322,7 +413,7 @@ Definition iter_values (R : record) (v : value) : list value + exc :=
   match v with
   | VList l | VTuple l => inl l
   | VStr s => inl (map (fun c => VStr [c]) s)
-  | VTypeM t => inl (tm_names R t)
+  | VTypeM t _ => inl (tm_names R t)
   | VNone | VBool _ | VInt _ => inr (ETypeError (is_none v))
   | VMissing => inr (ETypeError false)
   | _ => inr EUnmodelled
@@ -339,7 +430,7 @@ Definition h_upper (v : value) : result :=
 
 Definition unknown_record : str := string_to_str "UnknownRecord".
 Definition h_name (R : record) (v : value) : result :=
-  match v with VRec => Val (VStr (rec_name R)) | _ => if plain v || is_missing v then Val (VStr unknown_record) else Exc EUnmodelled end.
+  match v with VRec => Val (VStr (rec_name R)) | VSub nm _ => Val (VStr nm) | _ => if plain v || is_missing v then Val (VStr unknown_record) else Exc EUnmodelled end.
 
 Definition str_eqb (a b : str) : bool := list_eqb N.eqb a b.
 Definition h_has_field (R : record) (r f : value) : result :=
@@ -533,9 +624,6 @@ Definition allowed_callable (f : value) : bool :=
 (* ---- attribute access ---- *)
 Definition starts_dunder (a : string) : bool :=
   match a with String "_" (String "_" _) => true | _ => false end.
-Definition starts_underscore (a : string) : bool :=
-  match a with String "_" _ => true | _ => false end.
-
 Definition ft_valid (p : string) : bool :=
   existsb (fun w => String.eqb w p || String.prefix (p ++ ".") w) whitelist.
 
@@ -548,10 +636,17 @@ Definition getattr_found (R : record) (o : value) (a : string) : option result :
             end
   | VTypeRoot =>
       if in_list a whitelist_roots
-      then Some (if in_list a whitelist then Val (VTypeM a) else Exc EUnmodelled)
+      then Some (if in_list a whitelist then Val (VTypeM a []) else Exc EUnmodelled)
       else Some (Val VMissing)            (* TypeMatcher.__getattr__ itself answers NONE_OBJECT *)
   | VFt p => let p' := (p ++ "." ++ a)%string in if ft_valid p' then Some (Val (VFt p')) else None
   | VMissing => None
+  | VTypeM t at_ =>            (* TypeMatcherInstance.__getattr__ of a leaf type: extend the attribute path *)
+      Some (if starts_underscore a then Val VMissing else Val (VTypeM t (at_ ++ [a])))
+  | VSub _ fs => match field_value fs a with
+                 | Some v => Some (Val v)
+                 | None => if starts_underscore a then Some (Exc EUnmodelled) else None
+                 end
+  | VInt z => Some (match int_attr z a with Some w => Val w | None => Exc EUnmodelled end)
   | _ => Some (Exc EUnmodelled)
   end.
 
@@ -589,7 +684,8 @@ Fixpoint select (op : boolop) (vs : list value) : result :=
   | v :: t => match t with [] => Val v | _ :: _ => if stops op v then Val v else select op t end
   end.
 
-Definition is_typem (v : value) : bool := match v with VTypeM _ => true | _ => false end.
+Definition is_typem (v : value) : bool := match v with VTypeM _ _ => true | _ => false end.
+Definition quant_name (all_ : bool) : string := if all_ then "all" else "any".
 
 (* the operators of the documented language *)
 Definition lang_binop (op : binop) : bool :=
@@ -602,6 +698,8 @@ Section Python.
 Variable R : record.
 Variable roots : list string.      (* names that resolve to field-type modules / constructors *)
 Variable wrapped : bool.           (* r is a WrappedRecord: a field the record lacks reads as NONE_OBJECT *)
+Variable keep : bool.              (* the typed matcher hands its attribute path on to nested records: true in the
+                                      documented meaning; the GENERATED fact for the engine that uses TypeMatcher *)
 
 Definition py_name (ns : names) (n : string) : result :=
   match lookup n ns with
@@ -622,12 +720,12 @@ Definition chk (strict : bool) (r : result) : result :=
    interpreter-only ("requires the TypeMatcher to unroll its values") and counts as not defined. *)
 Definition link_py (strict : bool) (op : cmpop) (a b : value) : result :=
   match op with
-  | CEq => compare R REq a b | CNotEq => compare R RNe a b
-  | CLt => compare R RLt a b | CLtE => compare R RLe a b
-  | CGt => compare R RGt a b | CGtE => compare R RGe a b
+  | CEq => compare keep R REq a b | CNotEq => compare keep R RNe a b
+  | CLt => compare keep R RLt a b | CLtE => compare keep R RLe a b
+  | CGt => compare keep R RGt a b | CGtE => compare keep R RGe a b
   | CIs => is_op a b | CIsNot => neg_res (is_op a b)
-  | CIn => if strict && is_typem a then Exc EUndefined else contains R b a
-  | CNotIn => if strict && is_typem a then Exc EUndefined else neg_res (contains R b a)
+  | CIn => if strict && is_typem a then Exc EUndefined else contains keep R b a
+  | CNotIn => if strict && is_typem a then Exc EUndefined else neg_res (contains keep R b a)
   end.
 
 Section PyComb.
@@ -762,15 +860,25 @@ Fixpoint py_eval_gen (strict : bool) (ns : names) (e : expr) {struct e} : result
           end
       | x => x
       end
-  | EQuant all_ elt gens => scan_result all_ (p_gens (py_eval_gen strict) all_ elt gens ns)
+  | EQuant all_ elt gens =>
+      (* the callee is whatever the name any / all is bound to here (a generator variable may shadow it) *)
+      match py_name ns (quant_name all_) with
+      | Val (VFunc q) =>
+          if String.eqb q (quant_name all_) then scan_result all_ (p_gens (py_eval_gen strict) all_ elt gens ns)
+          else Exc EUnmodelled
+      | Val fv => if plain fv then Exc (ETypeError false) else Exc EUnmodelled      (* not callable *)
+      | Exc x => Exc x
+      end
   | EOther _ => Exc EUnmodelled
   end.
 End Python.
 
 (* ------------------------------------------------------------------------------------------------ *)
 (* PART 3: RecordContextMatcher._eval                                                                *)
-Record facts := { chained : bool; ifs_honoured : bool }.
-Definition gen_facts : facts := {| chained := compare_is_chained; ifs_honoured := comprehension_ifs_honoured |}.
+Record facts := { chained : bool; ifs_honoured : bool; tm_keeps_attrs : bool }.
+Definition gen_facts : facts :=
+  {| chained := compare_is_chained; ifs_honoured := comprehension_ifs_honoured;
+     tm_keeps_attrs := typematcher_recursion_keeps_attrs |}.
 
 Section Interpreter.
 Variable F : facts.
@@ -789,14 +897,15 @@ Definition guarded (g : Cmp.in_guard) (l r : value) : bool :=
 (* the In / NotIn lambdas of AST_COMPARATORS (guards GENERATED) *)
 Definition in_lambda (op : cmpop) (l r : value) : result :=
   match op with
-  | CNotIn => if guarded guard_notin l r then vb (Cmp.g_value guard_notin) else neg_res (contains R r l)
-  | _ => if guarded guard_in l r then vb (Cmp.g_value guard_in) else contains R r l
+  | CNotIn => if guarded guard_notin l r then vb (Cmp.g_value guard_notin) else neg_res (contains (tm_keeps_attrs F) R r l)
+  | _ => if guarded guard_in l r then vb (Cmp.g_value guard_in) else contains (tm_keeps_attrs F) R r l
   end.
 
 Definition cmp_by_name (nm : string) (a b : value) : result :=
-  if String.eqb nm "eq" then compare R REq a b else if String.eqb nm "ne" then compare R RNe a b
-  else if String.eqb nm "lt" then compare R RLt a b else if String.eqb nm "le" then compare R RLe a b
-  else if String.eqb nm "gt" then compare R RGt a b else if String.eqb nm "ge" then compare R RGe a b
+  let k := tm_keeps_attrs F in
+  if String.eqb nm "eq" then compare k R REq a b else if String.eqb nm "ne" then compare k R RNe a b
+  else if String.eqb nm "lt" then compare k R RLt a b else if String.eqb nm "le" then compare k R RLe a b
+  else if String.eqb nm "gt" then compare k R RGt a b else if String.eqb nm "ge" then compare k R RGe a b
   else if String.eqb nm "is_" then is_op a b else if String.eqb nm "is_not" then neg_res (is_op a b)
   else Exc EUnmodelled.
 
@@ -806,7 +915,8 @@ Definition link_interp (op : cmpop) (a b : value) : result :=
   match op with
   | CIn | CNotIn =>
       match a with
-      | VTypeM t => exists_res (fun v => in_lambda op v b) (tm_values R t)
+      | VTypeM t at_ =>         (* any(comp(v, right) for v in left._values()): the matcher's OWN values only *)
+          exists_on (fun v => in_lambda op v b) (tm_own (rec_fields R) t at_)
       | _ => in_lambda op a b
       end
   | _ => match assoc (cmpop_kind op) comparator_table with
@@ -995,8 +1105,20 @@ Fixpoint interp (d : names) (e : expr) {struct e} : result * names :=
       | _ => (Exc EInvalidOperation, d)
       end
   | EQuant all_ elt gens =>
-      if existsb (fun g => in_dom (comp_target g) d) gens then (Exc EInvalidOperation, d)
-      else match i_gens interp all_ elt gens d with (s, d') => (scan_result all_ s, d') end
+      (* a Call whose callee is the Name any / all and whose argument is the (lazy) generator object *)
+      match interp_name d (quant_name all_) with
+      | Exc EAttributeError => (Exc EInvalidOperation, d)
+      | Exc x => (Exc x, d)
+      | Val fv =>
+          if negb (allowed_callable fv) then (Exc EInvalidOperation, d)
+          else match fv with
+               | VFunc q =>
+                   if negb (String.eqb q (quant_name all_)) then (Exc EUnmodelled, d)
+                   else if existsb (fun g => in_dom (comp_target g) d) gens then (Exc EInvalidOperation, d)
+                   else match i_gens interp all_ elt gens d with (s, d') => (scan_result all_ s, d') end
+               | _ => (Exc EUnmodelled, d)
+               end
+      end
   | EOther _ => (Exc (ETypeError false), d)
   end.
 End Interpreter.
@@ -1025,10 +1147,11 @@ Definition truth (r : result) : option bool := match r with Val v => Some (truth
 (* the interpreted engine: Selector(e).match(R) *)
 Definition interpreted (R : record) (e : expr) : result := fst (interp gen_facts R std_data e).
 (* what the expression means in Python, names bound as the selector language documents them *)
-Definition py_eval (R : record) (e : expr) : result := py_eval_gen R whitelist_roots false false std_data e.
-Definition py_strict (R : record) (e : expr) : result := py_eval_gen R whitelist_roots false true std_data e.
+Definition py_eval (R : record) (e : expr) : result := py_eval_gen R whitelist_roots false true false std_data e.
+Definition py_strict (R : record) (e : expr) : result := py_eval_gen R whitelist_roots false true true std_data e.
 (* the compiled engine: eval(code, namespace) with r = WrappedRecord(record) *)
-Definition compiled (R : record) (e : expr) : result := py_eval_gen R compiled_extra_names true false compiled_names e.
+Definition compiled (R : record) (e : expr) : result :=
+  py_eval_gen R compiled_extra_names true (tm_keeps_attrs gen_facts) false compiled_names e.
 
 (* every sub-expression is defined on the record (and/or operands included, whether Python would skip them or not) *)
 Definition all_defined (R : record) (e : expr) : Prop := exists v, py_strict R e = Val v.
